@@ -146,7 +146,7 @@ PROPS = {
     ),
     "C17": dict(
         test="TestC17", engine="B", level="exploration", components="symbols",
-        quick_checks=20000, thorough_checks=150000, thorough_timeout=7200,
+        quick_checks=8000, thorough_checks=150000, thorough_timeout=7200,
         rule="a case = 0-5 generated descriptor files (packages from a pool of 8, colliding message/enum-value names, 0-3 extensions of "
              "messages in three different packages with numbers from a pool of three, dependency chains; built with protodesc from generated "
              "FileDescriptorProtos, so a file may even collide with its own dependency; optionally also compiled to a linker result with source) "
